@@ -331,3 +331,22 @@ Fixpoint same_cands_links (ls : list link) (a b : fdict) : bool :=
    sub-profiles a and b have been converted to profiles over the same candidates *)
 Definition same_cands (c : ccode) (a b : fdict) : bool :=
   match links_of c with Some ls => same_cands_links ls a b | None => false end.
+
+(* ---- where the library's two roundings can differ from the one exact rounding (Props/C13.v C13_rounded_code_outside_class).
+   A Fraction count x is first replaced by its 28 digit quotient v = sig_round 28 x and v is rounded to d decimals.  The rounding of
+   mode m is constant between two neighbouring BOUNDARIES of the mode: the exact halves (j + 1/2) / 10^d for the three HALF modes, the
+   grid points j / 10^d for the five directed modes - in units of half a unit of the last kept digit, the odd resp. the even integers.
+   [crosses m d x v]: some boundary of m lies in the closed interval between x and v. *)
+Definition half_boundaries (m : rmode) : bool :=
+  match m with RHalfUp | RHalfDown | RHalfEven => true | _ => false end.
+
+Definition crosses (m : rmode) (d : nat) (x v : Q) : bool :=
+  let lo := if Qle_bool x v then x else v in
+  let hi := if Qle_bool x v then v else x in
+  let jl := Qceiling (lo * (2 * pow10 d)) in
+  let jh := Qfloor (hi * (2 * pow10 d)) in
+  (jl <=? jh)%Z && ((jl <? jh)%Z || Bool.eqb (Z.odd jl) (half_boundaries m)).
+
+(* the double-rounding class: the 28 digit quotient is not the count itself and a boundary separates (or touches) the two *)
+Definition dr_class (prec : nat) (m : rmode) (d : nat) (x : Q) : bool :=
+  let v := sig_round prec x in negb (Qeq_bool v x) && crosses m d x v.
